@@ -69,6 +69,7 @@ type fakeRT struct {
 	reached   map[string]chan struct{} // closed when a call starts waiting on the gate
 	attempted map[string]bool
 	shapes    map[string]bool // "id:shape" of every record that reached the broker
+	dflt      fault           // the broker's decision once a partition's script is used up (zero: ok)
 	multi     int             // produce requests that were not exactly one topic / one partition, or whose acks / compression attribute
 	// differ from the Writer's configuration (options must be passed through unchanged)
 	wantAcks  int16
@@ -182,6 +183,8 @@ func (f *fakeRT) produce(r *produce.Request) (kafka.Response, error) {
 	if q := f.faults[tp]; len(q) > 0 {
 		ft = q[0]
 		f.faults[tp] = q[1:]
+	} else if f.dflt.kind != "" {
+		ft = f.dflt
 	} else {
 		ft = fault{kind: "ok"}
 	}
@@ -309,8 +312,11 @@ type scenario struct {
 	jitterUs   int
 	wire       int // > 0: run over the real kafka.Transport against this many byte-level brokers
 	moves      []leaderMove
+	dflt       fault                    // the fake broker's decision after the scripted ones (zero value: ok)
+	viaNew     bool                     // the Writer is built by the deprecated constructor NewWriter(WriterConfig)
 	defBal     bool                     // Writer.Balancer left unset: the default round-robin (one goroutine: message j of the run goes to partition j mod n)
 	writeTO    time.Duration            // > 0: Writer.WriteTimeout
+	prodMax    int16                    // wire: brokers advertise Produce only up to this version (0 = whatever the cluster model advertises)
 	stallAt    int                      // wire: the broker stops reading in the middle of the n-th produce request to arrive (special "stallwrite")
 	linger     time.Duration            // > 0: timed run — the trace carries clock ticks and the model's linger bound (BatchTimeout + slack) applies
 	trickle    time.Duration            // > 0 (with one caller): pause between the calls of a caller
@@ -734,6 +740,7 @@ func (b *builder) tombstones(i int) *scenario {
 		timeout: 2 * time.Millisecond, nparts: map[string]int{"t": 1 + i%2}, faults: map[tpKey][]fault{}, closeAt: -1}
 	if i%2 == 1 {
 		sc.wire, sc.jitter, sc.jitterUs, sc.ma = 2, true, 300, 4
+		sc.prodMax = []int16{3, 4, 0, 6}[(i/2)%4]
 	}
 	shapes := []string{"kv", "kn", "kv", "nv", "ke", "kn", "ev", "kv", "kn", "nv"}
 	var calls []callSpec
@@ -798,6 +805,58 @@ func (b *builder) defaultBalancer(i int) *scenario {
 	return sc
 }
 
+// viaNewWriter: the Writer is built by NewWriter(WriterConfig) with BatchSize, MaxAttempts and BatchBytes all different
+// from each other and from the defaults; calls longer than BatchSize (batches must close at exactly BatchSize),
+// messages that do not fit BatchBytes together, and a fault script that needs exactly MaxAttempts attempts.
+func (b *builder) viaNewWriter(i int) *scenario {
+	r := b.r
+	bs := []int{2, 3, 5, 7}[i%4]
+	ma := []int{4, 1, 3, 2}[i%4]
+	u := 50 + r.Intn(20)
+	sc := &scenario{name: "newwriter" + strconv.Itoa(i), bs: bs, bb: int64(u*(bs+1+i%2) + 5), ma: ma, async: i%3 == 2, compl: false, wtopic: "t",
+		timeout: 2 * time.Millisecond, nparts: map[string]int{"t": 1 + i%2}, faults: map[tpKey][]fault{}, closeAt: -1, viaNew: true}
+	var calls []callSpec
+	for c := 0; c < 2+r.Intn(2); c++ {
+		b.nextC++
+		cs := callSpec{id: b.nextC}
+		for k := 0; k < bs+1+r.Intn(2*bs); k++ {
+			cs.msgs = append(cs.msgs, b.mkMsg(u, "", 0, false))
+		}
+		calls = append(calls, cs)
+	}
+	sc.callers = [][]callSpec{calls}
+	var script []fault
+	for k := 0; k < ma-1; k++ {
+		script = append(script, fault{kind: "kerr", code: 6})
+	}
+	script = append(script, fault{kind: "ok"})
+	for k := 0; k < ma; k++ {
+		script = append(script, fault{kind: "lostack", code: 1})
+	}
+	sc.faults[tpKey{"t", 0}] = script
+	return sc
+}
+
+// sharedFail: many synchronous callers share every batch (BatchSize = number of callers, one message each, one
+// partition) and the broker refuses every batch with a permanent code: each completion wakes all callers of the batch at
+// once.  Every one of them must see the batch's error — a caller that reads the result before it is stored reports
+// success for a message that is not in the log.
+func (b *builder) sharedFail(i int) *scenario {
+	ncallers, rounds := 384, 5
+	sc := &scenario{name: "sharedfail" + strconv.Itoa(i), bs: ncallers, bb: 1 << 20, ma: 1 + i%2, async: false, compl: i%2 == 1, wtopic: "t",
+		timeout: 5 * time.Millisecond, nparts: map[string]int{"t": 1}, faults: map[tpKey][]fault{}, closeAt: -1,
+		dflt: fault{kind: "kerr", code: []int16{10, 87, 18}[i%3]}}
+	for c := 0; c < ncallers; c++ {
+		var calls []callSpec
+		for k := 0; k < rounds; k++ {
+			b.nextC++
+			calls = append(calls, callSpec{id: b.nextC, msgs: []msgSpec{b.mkMsg(40, "", 0, false)}})
+		}
+		sc.callers = append(sc.callers, calls)
+	}
+	return sc
+}
+
 // tinyTimeout: BatchTimeout of microseconds with BatchSize 2 and odd message counts, while every batch creation is
 // stalled inside the partition mutex: the linger timer of a batch expires while writeMessages fills and queues it and
 // opens the next batch, so the timer branch of awaitBatch runs for a batch that is no longer attached
@@ -807,6 +866,12 @@ func (b *builder) tinyTimeout(i int) *scenario {
 	sc := &scenario{name: "tiny" + strconv.Itoa(i), bs: 2, bb: 1 << 20, ma: 2, async: i%3 != 2, compl: i%2 == 0, wtopic: "t",
 		timeout: time.Duration(1+r.Intn(30)) * time.Microsecond, nparts: map[string]int{"t": 1}, faults: map[tpKey][]fault{}, closeAt: -1,
 		sinkDelay: map[string]time.Duration{"PW.NewBatch": time.Duration(60+r.Intn(120)) * time.Microsecond}}
+	if i%2 == 1 {
+		// the append window: every append of a long call is stalled (inside ptw.mutex) while the batch's timer has
+		// long expired and the batch is far from full — the timer goroutine must wait for the whole call
+		sc.bs = 64
+		sc.sinkDelay = map[string]time.Duration{"PW.Add": time.Duration(80+r.Intn(120)) * time.Microsecond}
+	}
 	ncallers := 1 + r.Intn(2)
 	for c := 0; c < ncallers; c++ {
 		var calls []callSpec
@@ -966,6 +1031,7 @@ func (b *builder) wireScenario(i int) *scenario {
 	if i%5 == 4 {
 		sc.closeAt = time.Duration(500+r.Intn(4000)) * time.Microsecond // Close while requests are on the wire
 	}
+	sc.prodMax = []int16{0, 3, 4, 7, 5, 3}[i%6] // old brokers: the Produce version the Transport negotiates down to
 	// leader moves after a few produce requests, on random partitions
 	nm := 1 + r.Intn(3)
 	for k := 0; k < nm; k++ {
@@ -1003,6 +1069,7 @@ type result struct {
 
 func run(sc *scenario, out *bufio.Writer) {
 	f := newFake()
+	f.dflt = sc.dflt
 	for t, n := range sc.nparts {
 		f.nparts[t] = n
 	}
@@ -1029,6 +1096,17 @@ func run(sc *scenario, out *bufio.Writer) {
 		WriteBackoffMin: 200 * time.Microsecond, WriteBackoffMax: time.Millisecond,
 		RequiredAcks: kafka.RequireOne, Async: sc.async,
 	}
+	if sc.viaNew {
+		// the deprecated construction path: the options travel through WriterConfig and NewWriter's field-by-field copy
+		nw := kafka.NewWriter(kafka.WriterConfig{
+			Brokers: []string{"fake:9092"}, Topic: sc.wtopic, Balancer: w.Balancer,
+			BatchSize: sc.bs, BatchBytes: int(sc.bb), BatchTimeout: sc.timeout, MaxAttempts: sc.ma,
+			RequiredAcks: int(kafka.RequireOne), Async: sc.async,
+		})
+		nw.Transport = f
+		nw.WriteBackoffMin, nw.WriteBackoffMax = w.WriteBackoffMin, w.WriteBackoffMax
+		w = nw
+	}
 	if sc.defBal {
 		w.Balancer = nil
 	}
@@ -1046,6 +1124,7 @@ func run(sc *scenario, out *bufio.Writer) {
 		w.Transport, w.Addr = tr, wc.bootAddr()
 		w.WriteBackoffMin, w.WriteBackoffMax = 2*time.Millisecond, 6*time.Millisecond
 		wc.stallAt = sc.stallAt
+		wc.prodMax = sc.prodMax
 		if sc.writeTO > 0 {
 			w.WriteTimeout = sc.writeTO
 		}
@@ -1499,6 +1578,21 @@ func run(sc *scenario, out *bufio.Writer) {
 						batch = b
 					}
 				}
+				// the answer to this request was read by the client completely (Br.Delivered follows the broker's decision
+				// before its next decision on that partition): then it did arrive, whatever the client made of it
+				delivered := false
+				for j := idx + 1; j < len(evs); j++ {
+					if evs[j].Kind == "Br.Produce" && evs[j].Args[0] == e.Args[0] && evs[j].Args[1] == e.Args[1] {
+						break
+					}
+					if evs[j].Kind == "Br.Delivered" && evs[j].Args[0] == e.Args[0] && evs[j].Args[1] == e.Args[1] {
+						delivered = true
+						break
+					}
+				}
+				if delivered {
+					continue
+				}
 				for j := idx + 1; j < len(evs) && batch != ""; j++ {
 					if evs[j].Kind == "PW.AttemptDone" && evs[j].Args[1] == batch {
 						got := evs[j].Args[3]
@@ -1644,6 +1738,9 @@ func renderEvents(evs []kafka.VerifEvent, tickAt map[int]int64) string {
 			strings.HasPrefix(e.Kind, "B.") || strings.HasPrefix(e.Kind, "Br.")) {
 			continue
 		}
+		if e.Kind == "Br.Delivered" { // the wire broker's note that its answer was read by the client: used before rendering only
+			continue
+		}
 		if t, ok := tickAt[e.Seq]; ok {
 			parts = append(parts, "T.Tick "+strconv.FormatInt(t, 10))
 		}
@@ -1728,6 +1825,12 @@ func main() {
 	}
 	for i := 0; i < 6*extra && failedScenarios < 3; i++ {
 		run(b.defaultBalancer(i), out)
+	}
+	for i := 0; i < 8*extra && failedScenarios < 3; i++ {
+		run(b.viaNewWriter(i), out)
+	}
+	for i := 0; i < 2+extra/5 && failedScenarios < 3; i++ {
+		run(b.sharedFail(i), out)
 	}
 	for i := 0; i < 3+extra && failedScenarios < 3; i++ {
 		run(b.trickleFamily(i), out)
